@@ -47,16 +47,40 @@ class C01(PropCheck):
                                  "payload": payload})
             elif r["status"] != "END done":
                 failures.append({"kind": "disagreement", "key": "C01:hlend", "what": "scenario ended with %s" % r["status"], "payload": payload})
+        # registry level: the actions themselves (release once, by the remover, outside handlers,
+        # never while pinned, no run after the removal returned)
+        from . import c02, c09
+        rcres = c02.C01rc().correspond(tier, seed, rng)
+        failures += rcres["failures"]
+        dist["registry_scenarios"] = rcres["evaluations"]
+        # removal by dropping the owner: handle clones add signals concurrently, then everything is
+        # dropped and every signal re-delivered - no action of the instance may remain or run
+        class Owners(c09.IterCheck):
+            pid = "C01"
+            profile = "adders"
+        ores = Owners().correspond(tier, seed, rng)
+        failures += ores["failures"]
+        dist["owner_drop_scenarios"] = ores["evaluations"]
         uniq = {}
         for f in failures:
             uniq.setdefault(f["key"], f)
-        return {"evaluations": len(results), "distinct_nontrivial": nontrivial,
-                "rule": "random scenarios (2-5 threads, 1-3 read/write commands each) on the real HalfLock under the deterministic scheduler with a PRNG schedule from VERIF_SEED; every shim-visible step is compared with the Lean model replaying the same schedule; the C01 trace monitor runs on the implementation trace; distinct = different (scenario, schedule); non-trivial = contains a swap and a reader's data load",
+        return {"evaluations": len(results) + rcres["evaluations"] + ores["evaluations"],
+                "distinct_nontrivial": nontrivial + rcres["distinct_nontrivial"] + ores["distinct_nontrivial"],
+                "rule": "random scenarios (2-5 threads, 1-3 read/write commands each) on the real HalfLock under the deterministic scheduler with a PRNG schedule from VERIF_SEED; every shim-visible step is compared with the Lean model replaying the same schedule; the C01 trace monitor runs on the implementation trace; distinct = different (scenario, schedule); non-trivial = contains a swap and a reader's data load; plus registry-level scenarios (register / unregister / deliveries incl. nested ones, monitors: an action is released once, by the removing thread, outside handlers, never while a delivery has a snapshot with it pinned, and never runs after its removal returned) and owner-drop scenarios (handle clones add signals concurrently, the instance and all handles are dropped, every signal is re-delivered: no action of the instance may remain registered or run)",
                 "samples": [{"scenario": results[0]["scenario"], "schedule": " ".join(results[0]["schedule"]), "trace": results[0]["impl"][:14]}] if results else [],
                 "traces_validated_against_impl": len(results), "steps_compared": steps, "distribution": dist,
                 "failures": list(uniq.values())}
 
     def replay(self, payload):
+        if any(l.startswith("setup") or " reg " in l or "deliver" in l for l in payload["scenario"]):
+            from . import c02
+            return c02.C01rc().replay(payload)
+        if any(l.startswith("watch") or "add " in l or "poll" in l for l in payload["scenario"]):
+            from . import c09
+            class Owners(c09.IterCheck):
+                pid = "C01"
+                profile = "adders"
+            return Owners().replay(payload)
         sc = [l for l in payload["scenario"] if not l.startswith("seed")] + ["schedule " + " ".join(payload["schedule"])]
         r = hl.run_batch([sc])[0]
         probs = hl.monitor_c01(r["impl"])
